@@ -18,8 +18,9 @@ T *construct(Allocator &allocator, Args &&... args) {
 template<typename T, typename Allocator, typename... Args>
 T *construct_n(Allocator &allocator, size_t n, Args &&... args) {
 	T *pointer = (T *)allocator.allocate(sizeof(T) * n);
+	// All n elements are built from the same arguments: they must not be moved from.
 	for(size_t i = 0; i < n; i++)
-		new(&pointer[i]) T(std::forward<Args>(args)...);
+		new(&pointer[i]) T(args...);
 	return pointer;
 }
 
